@@ -9,6 +9,7 @@ package evict
 
 import (
 	"fmt"
+	"sync"
 	"math"
 	"sort"
 
@@ -64,7 +65,7 @@ type Spec struct {
 	QGuar   map[int64][2]int64 // Queue.Spec.Guarantee.Resource: cpu milli, memory bytes (0 = not set)
 	QDes    map[int64][2]int64 // Queue.Spec.Deserved
 	Tiers   [][]Plug
-	Actions []int64 // 1 preempt, 2 reclaim
+	Actions []int64 // 1 preempt, 2 reclaim, 3 preempt with topology-aware preemption
 	Faults  [][2]int64 // (task, node): the allocate event handler reports Event.Err for this placement
 	Refuse  []int64    // cache.Evict refuses these tasks
 }
@@ -194,6 +195,7 @@ type World struct {
 	PropSnap func() proportion.VerifSnapshot
 	CapSnap  func() capacity.VerifSnapshot
 	jobKey   map[int64]api.JobID
+	mu       sync.Mutex // the topology-aware dry run calls the votes from several goroutines
 }
 
 const recorderName = "verif-evict-recorder"
@@ -262,7 +264,9 @@ func (p *recPlugin) OnSessionOpen(ssn *framework.Session) {
 			ev.obs = append(ev.obs, o)
 		}
 		ev.QOrder = PopOrder(ssn, p, cands)
+		w.mu.Lock()
 		w.Trace = append(w.Trace, ev)
+		w.mu.Unlock()
 		return nil, 0 // abstain
 	}
 	ssn.AddPreemptableFn(recorderName, vote)
@@ -551,11 +555,18 @@ func (w *World) RunActions() {
 	for i, a := range w.Spec.Actions {
 		w.curAct = int64(i + 1)
 		var act framework.Action
+		w.Ssn.Configurations = nil
 		switch a {
 		case 1:
 			act = preempt.New()
 		case 2:
 			act = reclaim.New()
+		case 3:
+			// preempt with enableTopologyAwarePreemption: dry run on node clones (SelectVictimsOnNode, in
+			// parallel), then the chosen node's victims are evicted and the preemptor pipelined in a temporary statement
+			act = preempt.New()
+			w.Ssn.Configurations = []conf.Configuration{{Name: act.Name(),
+				Arguments: map[string]interface{}{preempt.EnableTopologyAwarePreemptionKey: true}}}
 		default:
 			panic(fmt.Sprint("unknown action ", a))
 		}
